@@ -274,7 +274,7 @@ func (s *speller) ws(need bool) {
 
 func hexd(n int) string { return "0123456789abcdefABCDEF"[n : n+1] }
 
-// runeForm spells one rune inside a quoted literal (q = '"' or '\'') or a class (q = ']').
+// runeForm spells one rune inside a quoted literal (q = '"' or '\”) or a class (q = ']').
 func (s *speller) runeForm(x rune, q rune) string {
 	r := s.r
 	simple := map[rune]string{'\a': `\a`, '\b': `\b`, '\f': `\f`, '\n': `\n`, '\r': `\r`, '\t': `\t`, '\v': `\v`, '\\': `\\`}
@@ -339,6 +339,18 @@ func (s *speller) literal(val string, ic bool) string {
 		out = "'" + s.runeForm(rs[0], '\'') + "'"
 	case 2:
 		out = "`" + val + "`"
+		if !s.subset && r.Intn(3) == 0 {
+			// carriage returns inside a raw literal are discarded (Go notation): write some that are not
+			// part of the value
+			k := r.Intn(len(val) + 1)
+			for k < len(val) && !utf8.RuneStart(val[k]) {
+				k++
+			}
+			out = "`" + val[:k] + "\r" + val[k:] + "`"
+			if i := strings.IndexByte(val, '\n'); i >= 0 {
+				out = "`" + val[:i] + "\r" + val[i:] + "`"
+			}
+		}
 	}
 	if ic {
 		out += "i"
